@@ -21,3 +21,4 @@ git add -A; git commit -qm "merge $P builder branch (wip-$P)"
 echo "== check"
 ./check --setup 2>&1 | tail -2
 ./check $P --tier quick; echo "rc=$?"
+git add -A evidence; git commit -qm "evidence $P from /repo" >/dev/null
